@@ -450,9 +450,11 @@ func (e *SpecEnv) index(x Val, i Val) Val {
 		} else {
 			key = e.ex.strID(kv)
 		}
+		// Go semantics: the zero value for an absent key (and for a nil map)
+		has := And(Neq(x.C[0], IntC(0)), Select(Select(e.st.heapGet(mapHasKey(mt), ArraySort(IntSort, ArraySort(ks, BoolSort))), x.C[0]), key))
 		c := make([]*Term, len(vs))
 		for k, s := range vs {
-			c[k] = Select(Select(e.st.heapGet(mapValKey(mt, k), ArraySort(IntSort, ArraySort(ks, s))), x.C[0]), key)
+			c[k] = Ite(has, Select(Select(e.st.heapGet(mapValKey(mt, k), ArraySort(IntSort, ArraySort(ks, s))), x.C[0]), key), zeroTerm(s))
 		}
 		return Val{T: mt.Elem(), C: c}
 	}
@@ -1021,6 +1023,28 @@ func (e *SpecEnv) evalLoc(cl Clause) Loc {
 	x := cl.Expr
 	switch x.Kind {
 	case "select":
+		// T.f with T a struct type name: field f of every object of type T (type-level frame)
+		if x.Args[0].Kind == "ident" {
+			if _, isVar := e.vars[x.Args[0].Name]; !isVar && (e.fx == nil || !e.locals || e.localAlloc(x.Args[0].Name) == nil) {
+				if t := e.lookupType(x.Args[0].Name); t != nil && isStruct(t) {
+					path := embeddedPath(t, x.Name, 0)
+					if len(path) != 1 {
+						e.fail("type-level modifies target %s: no direct field %s", cl.Src, x.Name)
+					}
+					ft := t.Underlying().(*types.Struct).Field(path[0]).Type()
+					var keys []string
+					if isStruct(ft) || isArray(ft) {
+						e.fail("type-level modifies target %s: field of struct or array type", cl.Src)
+					}
+					for k, srt := range layout(ft) {
+						key := fldKey(structName(t), path[0], k)
+						keys = append(keys, key)
+						keySortHint[key] = ArraySort(IntSort, srt)
+					}
+					return Loc{Kind: "key", Keys: keys}
+				}
+			}
+		}
 		base := e.eval(x.Args[0])
 		var mp *MetaPtr
 		var guard *Term
